@@ -113,7 +113,8 @@ def _singles(draw):
             "atomtypes": [{"name": "TA", "mass": 72.0, "sigma": 0.47, "eps": 2.0},
                           {"name": "TB", "mass": 72.0, "sigma": sig_b, "eps": 2.0}],
             "moltypes": [ma, sol], "molecules": molecules,
-            "opts": {"box": [edge, edge, edge], "max_force": draw(st.sampled_from([1e3, 1e4, 5e4])), "grid": grid},
+            "opts": dict({"box": [edge, edge, edge], "max_force": draw(st.sampled_from([1e3, 1e4, 5e4])), "grid": grid},
+                         **({"maxiter": draw(st.sampled_from([0, 1]))} if draw(st.booleans()) else {})),
             "build": None, "coords": None, "singles": True}
 
 
@@ -189,6 +190,10 @@ def _strategy(draw):
         opts["grid"] = draw(st.permutations(lattice))[:npts]
     if draw(st.booleans()):
         opts["nrewind"] = draw(st.integers(1, 5))
+    if dense and draw(st.booleans()):
+        # few attempts per molecule (-mi): in a crowded box molecules run out of them and are started over; the
+        # limits in force stay what the user gave
+        opts["maxiter"] = draw(st.sampled_from([0, 1, 2]))
     if "grid" not in opts and draw(st.integers(0, 3)) == 0:
         # part of the system comes with coordinates: the first built residue of a partly supplied chain is
         # grown from a supplied one, at the same step length as everywhere else
@@ -203,6 +208,13 @@ def _strategy(draw):
         opts["box"] = None
         opts["density_box"] = box
     spec["opts"] = opts
+    resn = sorted({r["resname"] for mt in spec["moltypes"] for r in mt["residues"]})
+    if len(resn) <= 3 and not spec.get("build") and draw(st.integers(0, 3)) == 0:
+        # bending stiffness for every residue triple (a build-file [ bending ] section): steps are then also
+        # accepted or refused by the angle they make, near box faces too
+        k = draw(st.sampled_from([1.0, 5.0]))
+        spec["build"] = ["[ bending ]"] + [f"{a} {b} {c} {k}" for a in resn for b in resn for c in resn]
+        spec["bending"] = True
     return spec
 
 
@@ -219,6 +231,10 @@ def check(spec, ctx):
     if spec.get("fill"):
         spec = _fill(spec)
         ctx.label("second_neighbour_tree")
+    if spec.get("bending"):
+        ctx.label("bending_stiffness")
+    if spec.get("fill"):
+        pass
     elif spec.get("singles"):
         ctx.label("many_one_residue_molecules")
     elif spec.get("later_supplied"):
@@ -229,6 +245,7 @@ def check(spec, ctx):
     sf = opts.get("step_fudge", 1.0)
     max_force = opts.get("max_force", 5e4)
     stats = {"adds": 0, "cross": 0, "starts": 0, "sizes": set()}
+    accepted_at = {}
 
     def size_of(engine, res, mol_idx, node):
         topo = res.topology
@@ -250,6 +267,12 @@ def check(spec, ctx):
                 positioned[(mi, nd)] = pos
         if (mol_idx, node) in positioned:
             raise Violation("placed_twice", f"residue ({mol_idx},{node}) already has a position")
+        # residues accepted earlier stay where they were put (until they are removed)
+        for key, pos in positioned.items():
+            old = accepted_at.get(key)
+            if old is not None and not np.array_equal(old, pos):
+                raise Violation("accepted_residue_moved", f"residue {key} was placed at {old} and is now at {pos}")
+        accepted_at[(mol_idx, node)] = np.array(point, dtype=float).copy()
         my_size = size_of(engine, res, mol_idx, node)
         stats["sizes"].add(round(my_size, 6))
         if start:
